@@ -17,7 +17,16 @@ class Console:
         self.err.write(format_error_msg(self.program_name, msg))
 
     def print_dry_run(self, path):
-        self.out.write("would remove %s\n" % path)
+        self._write_out("would remove %s\n" % path)
 
     def print_removing(self, path):
-        self.out.write("removing %s\n" % path)
+        self._write_out("removing %s\n" % path)
+
+    def _write_out(self, text):
+        try:
+            self.out.write(text)
+        except UnicodeEncodeError:
+            # a name that is not valid UTF-8: show it with escapes instead
+            # of dying in the middle of the run
+            self.out.write(text.encode('utf-8', 'backslashreplace')
+                           .decode('utf-8'))
